@@ -53,6 +53,10 @@ def features(deck):
         f.add('card_order')
     if any(c.get('eqstyle') for c in deck['cells']):
         f.add('optional_equals_sign')
+    if deck.get('starwide'):
+        f.add('star_angles_beyond_180')
+    if deck.get('padded'):
+        f.add('dozen_operands')
     if deck.get('tr6'):
         f.add('six_entry_matrices')
     if any(c.get('parens') is not None for c in deck['cells']):
@@ -62,7 +66,7 @@ def features(deck):
     return sorted(f)
 
 
-def run(chk, decks, clauses, seed, optsets, npts=110, decorate=None, lo=-11, hi=11, moved_every=0):
+def run(chk, decks, clauses, seed, optsets, npts=110, decorate=None, lo=-11, hi=11, moved_every=0, unit_every=0):
     """Each deck is converted under every option set of optsets(deck, rng)."""
     from .. import numberings
     rng = random.Random(seed)
@@ -75,7 +79,9 @@ def run(chk, decks, clauses, seed, optsets, npts=110, decorate=None, lo=-11, hi=
         if i in family:
             d = numberings.apply(d, family[i])          # a member of the family of Numberings.tla admissible for the deck
         elif i in set(renumbered):
-            d = adeck.renumber(d, *adeck.RENUMBERINGS[1 + (i // 3) % 3])
+            d = adeck.renumber(d, *adeck.RENUMBERINGS[1 + (i // 6) % 4])
+        elif i % 9 == 5:
+            d = adeck.lookalike_numbers(d) or d        # surface cards numbered like 1000*cell+surface
         if i % 4 == 2:
             d['plusspell'] = True        # '+3' is a valid MCNP number
         if i % 5 == 0 and not d.get('impcards') and not any(c.get('like') or c.get('impsrc') == 'data' for c in d['cells']):
@@ -90,12 +96,16 @@ def run(chk, decks, clauses, seed, optsets, npts=110, decorate=None, lo=-11, hi=
             for c in d['cells']:         # redundant parentheses around runs of operands: same region
                 if not c.get('like'):
                     c['parens'] = ('pairs%d' % (1 + (i // 7) % 3)) if c.get('lat') else rng.randrange(1000)
+        if i % 7 == 2:
+            d['starwide'] = True         # starred forms with angles beyond 180 degrees (270 for 90, -180 for 180, 360 - a)
         if i % 7 == 1:
             d['tr6'] = True              # rotation matrices with six entries (two rows; the third is implied)
             for c in d['cells']:
                 for key in ('ftrspell', 'trclspell'):
                     if c.get(key) in ('12', 'star'):
                         c[key] = {'12': '6', 'star': 'star6'}[c[key]]
+        if i % 11 == 7:
+            adeck.pad_cells(d)               # intersections of a dozen operands
         if i % 7 == 6:
             for c in d['cells']:         # the equals sign of a keyword is optional
                 c['eqstyle'] = 'blank' if (i // 7) % 2 else 'spaced'
@@ -117,7 +127,8 @@ def run(chk, decks, clauses, seed, optsets, npts=110, decorate=None, lo=-11, hi=
                     c['negu'] = True
         if decorate:
             decorate(d, rng)
-        d['pts'] = adeck.grid_points(rng, npts, lo, hi)
+        if not d.get('pts_fixed'):
+            d['pts'] = adeck.grid_points(rng, npts, lo, hi)
         for opts in optsets(d, rng):
             tid += 1
             nd[tid] = d
@@ -135,6 +146,17 @@ def run(chk, decks, clauses, seed, optsets, npts=110, decorate=None, lo=-11, hi=
                 jobs.append({'tid': tid, 'deck': d, 'opts': opts, 'keep_parsed': False, 'text': adeck.concretise(mv),
                              'real_points': adeck.moved_points(d['pts'], phi)})
                 chk.extra['moved_world_decks'] = chk.extra.get('moved_world_decks', 0) + 1
+        if unit_every and i % unit_every == 1:
+            # another unit of length: the converter reads the text in units of 1e-3 / 400, TLC keeps the exact deck
+            res = adeck.unit_change(d, [0.001, 400.0][(i // unit_every) % 2])
+            if res is not None:
+                tid += 1
+                nd[tid] = d
+                opts = optsets(d, rng)[0]
+                meta[tid] = {'deck_index': i, 'opts': opts, 'moved': True, 'unit': True}
+                jobs.append({'tid': tid, 'deck': d, 'opts': opts, 'keep_parsed': False, 'text': adeck.concretise(res[0]),
+                             'real_points': res[1]})
+                chk.extra['unit_changed_decks'] = chk.extra.get('unit_changed_decks', 0) + 1
     core.lap('prepare')
     records = conv.run_batch(deckrun.run_deck, jobs, chunksize=8)
     core.lap('converter x%d' % len(jobs))
